@@ -1009,7 +1009,7 @@ class C01(PropBase):
     translators = ["c01_sites.py", "format_layouts.py"]
     bins = ["c01"]
     impl_timeout = 240
-    model_timeout = 1800     # thorough tier on a loaded machine: a model shard (9 000 cases) was seen to exceed the default 900 s
+    model_timeout = 3400     # a wall-clock safety net only: at load 200 (twenty builders on 16 cores) a thorough model shard of 8 300 cases needed more than 1 800 s (round 5), 900 s at load 60 (round 4)
     impl_mem_gb = 4
     rule = ("case = a byte string offered as a minidump (hex, or a /repo/testdata file with u32 patches). Exhaustive blocks: truncation of a "
             "10-stream dump at every offset; every 4-byte-aligned u32 of that dump replaced by each of {0,1,len-1,len,len+1,2^31,2^32-1}; both endians. "
@@ -1086,7 +1086,7 @@ class C01(PropBase):
         g.location_content_product()
         g.lookup_product()
         g.utf16_edge_product()
-        g.synth_and_samples(700 if q else 8000, 160 if q else 2500)
+        g.synth_and_samples(700 if q else 8000, 160 if q else 2000)      # a mutated sample dump costs the model 0.3-0.5 s (27 KB as a list): the thorough tier's largest block
         g.random_bytes(200 if q else 3000)
         # the runner shards the case list into NCPU contiguous ranges: deal the cases round-robin so that every shard gets the
         # same mix of cheap and expensive cases (the exhaustive blocks over 2 KB dumps are otherwise all in the first shards)
